@@ -298,6 +298,7 @@ def run(rep, tier):
                 if not esc:
                     tainted.append(show(rhs))
         rep.floor("R11.4", n_src, 2, "value/attribute sinks in PrintNodeXML")
+        check_escaper(rep, F, pn)
         rep.check(not tainted, "R11.4", "xml-escape", "values and attribute values are escaped before they reach the stream",
                   "PrintNodeXML writes %s to the XML stream without escaping &, <, >, \": a tree with such characters does not survive write/load" % tainted, pn.loc(), sample=True)
 
@@ -625,3 +626,61 @@ def check_multichoice(rep, iv):
             bad = "for a two-word value whose words are %s / %s the loop ends with valid = %s (required %s): an undeclared word is accepted when %s" % (
                 "declared" if m1 else "UNDECLARED", "declared" if m2 else "UNDECLARED", v, m1 and m2, "a declared word follows it" if not m1 else "it comes last")
     rep.check(bad is None, "R11.3", "multi-choice-all-words", "a multi-selection value is valid iff every word is a declared choice", "IsValidOption: %s" % bad, iv.loc(l["node"]), sample=True)
+
+
+def check_escaper(rep, F, pn):
+    """the escaping function itself: each of & < > " is mapped to its entity, and the text is handed back unchanged only under a test that rules out
+    all four characters"""
+    ENT = {ord("&"): "&amp;", ord("<"): "&lt;", ord(">"): "&gt;", ord('"'): "&quot;"}
+    names = {n.get("callee") for n in pn.walk() if n.get("k") == "call" and is_escaper(F, n.get("callee"))}
+    if len(names) != 1:
+        rep.broken("R11.4", "expected one escaping function used by PrintNodeXML, found %d" % len(names))
+        return
+    esc = F.find(next(iter(names)))[0]
+    rep.analysed(esc)
+    pname = esc.j["params"][0]["name"]
+    # (1) per-character table: the statement selected by a markup character appends that character's entity
+    table = {}
+    for n in esc.walk():
+        if n.get("k") == "switch":
+            label = None
+            for st in (n["body"].get("stmts") or []):
+                cur = st
+                while cur.get("k") in ("case", "default"):
+                    lv = unwrap(cur.get("value") or {}) if cur.get("k") == "case" else None
+                    label = lv.get("v") if lv is not None and lv.get("k") in ("char", "int") else (cur.get("label") if cur.get("k") == "case" else "default")
+                    cur = cur["sub"]
+                for x in walk(cur):
+                    if x.get("k") == "str" and label not in (None, "default"):
+                        table.setdefault(label, set()).add(x["v"])
+        if n.get("k") == "if":
+            cmps = [c for c in walk(n["cond"]) if c.get("k") in ("binop", "opcall") and c.get("op") == "=="]
+            for c in cmps:
+                lits = [unwrap(a) for a in (c.get("args") or [c.get("lhs"), c.get("rhs")]) if a is not None]
+                ch = [l_["v"] for l_ in lits if l_.get("k") == "char"]
+                if len(ch) == 1:
+                    for x in walk(n["then"]):
+                        if x.get("k") == "str":
+                            table.setdefault(ch[0], set()).add(x["v"])
+    tab_ok = all(ENT[c] in {str(v) for v in table.get(c, set())} | {str(v) for v in table.get(chr(c), set())} for c in ENT)
+    rep.check(tab_ok, "R11.4", "escaper|table", "& < > \" are mapped to &amp; &lt; &gt; &quot;", "%s: the per-character table is %s" % (esc.qname, {str(k): sorted(v) for k, v in table.items()}), esc.loc(), sample=True)
+    # (2) shortcuts: a return of the unmodified text needs a test that excludes every markup character
+    fo = Fold(esc, inline=False).run()
+    bad = None
+    for e in fo.events:
+        if e["kind"] != "return" or str(e.get("value")) != pname:
+            continue
+        sets = []
+        for c, pol, _n in e["guards"]:
+            if isinstance(c, tuple) and len(c) == 3 and c[0] in ("==", "!=") and (c[0] == "==") == pol:
+                for x_, y_ in ((c[1], c[2]), (c[2], c[1])):
+                    if str(getattr(x_, "func", "")) == "find_first_of" and str(x_.args[0]) == pname and "npos" in str(y_):
+                        m_ = re.search(r'"((?:[^"\\]|\\.)*)"', str(x_.args[1]))
+                        lit = [a_ for a_ in esc.walk() if a_.get("k") == "str" and a_.get("id") is not None and str(x_.args[1]).find(a_["v"]) >= 0 and set(a_["v"]) & set("&<>\"")]
+                        sets.append(set(lit[0]["v"]) if lit else set(m_.group(1)) if m_ else set())
+        covered = set().union(*sets) if sets else set()
+        missing = [ch for ch in "&<>\"" if ch not in covered]
+        if missing:
+            bad = "the text is returned unescaped under %s, which does not exclude %s: a value containing only %s is written as markup" % (
+                [fo.cond_str(g[0])[:80] for g in e["guards"]], " ".join(missing), " ".join(missing))
+    rep.check(bad is None, "R11.4", "escaper|no-unsafe-shortcut", "the unmodified text is returned only when it contains none of & < > \"", "%s: %s" % (esc.qname, bad), esc.loc(), sample=True)
